@@ -160,8 +160,8 @@ where
     pub async fn shutdown(&mut self, max_requests: usize) -> Result<(), ConnectionError> {
         let max_id = self
             .last_accepted_stream
-            .map(|id| id + max_requests)
-            .unwrap_or(StreamId::FIRST_REQUEST);
+            .map(|id| id + max_requests + 1)
+            .unwrap_or(StreamId::FIRST_REQUEST + max_requests);
 
         self.inner.shutdown(&mut self.sent_closing, max_id).await
     }
@@ -200,7 +200,7 @@ where
                     // incoming requests not belonging to the grace interval. It's possible that
                     // some acceptable request streams arrive after rejected requests.
                     if let Some(max_id) = self.sent_closing {
-                        if s.send_id() > max_id {
+                        if s.send_id() >= max_id {
                             s.stop_sending(Code::H3_REQUEST_REJECTED.value());
                             s.reset(Code::H3_REQUEST_REJECTED.value());
                             if self.poll_requests_completion(cx).is_ready() {
@@ -209,7 +209,11 @@ where
                             continue;
                         }
                     }
-                    self.last_accepted_stream = Some(s.send_id());
+                    // Streams can arrive out of order: keep the highest id handed out.
+                    match self.last_accepted_stream {
+                        Some(last) if last > s.send_id() => {}
+                        _ => self.last_accepted_stream = Some(s.send_id()),
+                    }
                     self.ongoing_streams.insert(s.send_id());
                     Poll::Ready(Ok(Some(s)))
                 }
